@@ -7,7 +7,8 @@ TECHNIQUE = 'control-dependence check of the no-op guard in every engine (decode
 CLAIM = ('Decides statically the no-op clause of the property: in the interpreter decoder and in the x86/A64/RV64 emitters every effect of IMUL_RCP (field assignment, emitted code, '
          'last-writer mark) is control-dependent on !isZeroOrPowerOf2(zero-extended imm32) and the no-op arm does nothing. The exactness of randomx_reciprocal / randomx_reciprocal_fast '
          'for all 2^32 divisors is number theory over runtime values and is not claimed (not decidable by a static argument in reach).'
-         ' Also: randomx_reciprocal is a pure function of its argument (no store, no mutable global, no call) in the compiled IR (RCP-PURE), so the multiplier cannot depend on history or on other threads.')
+         ' Also: randomx_reciprocal is a pure function of its argument (no store, no mutable global, no call) in the compiled IR (RCP-PURE), so the multiplier cannot depend on history or on other threads.'
+         ' The RV64 vector generator is included in RCP-NOOP / LW-SIB.')
 LEVEL_NOTE = 'Trusted: clang AST. Not covered: the numeric clause reciprocal(d) == floor(2^(63+bitlen d)/d) and fast == portable.'
 EXPLANATION = 'RCP-NOOP evaluated on the IMUL_RCP decoder block and on h_IMUL_RCP of each JIT back-end; RCP-USE lists which reciprocal routine each engine calls. RCP-PURE on the LLVM IR of reciprocal.c; LW-SIB for the three back-ends.'
 
